@@ -424,7 +424,17 @@ def _(I, ctx, r, o):
 def _vec_as_slice(I, ctx, r): return ValRef(deref(r))
 @model('re:^<(std::string::)?String as Deref>::deref$', 're:^(std::string::)?String::as_str$', 're:^<(std::string::)?String as AsRef<str>>::as_ref$')
 def _(I, ctx, r): return ValRef(deref(r))
-@model('re:^<Vec<.*> as Into<Vec<.*>>>::into$', 're:^<impl Into<.*> as Into<.*>>::into$', 're:^<(\\w+) as Into<\\1>>::into$',
+@model('re:^<impl Into<.*> as Into<.*>>::into$')
+def _impl_into(I, ctx, v):
+    m = re.match(r'^<impl Into<(.*)> as Into<.*>>::into$', ctx.cur_key)
+    tgt = re.sub(r'<.*$', '', m.group(1)).split('::')[-1]
+    a0 = deref1(v)
+    if isinstance(a0, Agg) and a0.name != tgt and a0.name not in ('tuple',):
+        key = f'<{m.group(1)} as From<{a0.name}>>::from'
+        r = I.resolve_static(ctx.cur_crate, key)
+        if r is not None and r[0] == 'fn': return I.call(ctx, ctx.cur_crate, key, [v])
+    return v
+@model('re:^<Vec<.*> as Into<Vec<.*>>>::into$', 're:^<(\\w+) as Into<\\1>>::into$',
        're:^<&?(\\[u8\\]|str) as Into<&?(\\[u8\\]|str)>>::into$', 're:^<(.+) as From<\\1>>::from$')
 def _ident(I, ctx, v): return v
 @model('re:^<Vec<.*> as Clone>::clone$', 're:^<(std::string::)?String as Clone>::clone$', 're:^<Box<.*> as Clone>::clone$')
@@ -441,7 +451,11 @@ def _slice_get(I, ctx, r, idx):
     l, lo, hi = seq_view(r)
     n = hi - lo
     if isinstance(idx, Agg):
-        raise Unsupported('slice.get(range)')
+        try:
+            lo2, hi2 = _range_bounds(ctx, idx, n, 'slice')
+        except Panic:
+            return NONE()
+        return SOME(ValRef(SliceV(l, lo + lo2, lo + hi2)))
     if ctx.branch((idx.e < n) if idx.conc() else z3.ULT(idx.z(), n)):
         i = ctx.concretize(idx)
         return SOME(ElemRef(l, lo + i))
@@ -662,6 +676,9 @@ def _(I, ctx, o):
     if o.variant == 'Some': return o.fields[0]
     raw = ctx.cur_raw
     if 'Vec<' in raw: return VecV([])
+    from .models2 import default_of
+    m = re.search(r'Option::<(.*)>::unwrap_or_default$', raw)
+    if m: return default_of(I, ctx, m.group(1))
     raise Unsupported('unwrap_or_default ' + raw)
 @model('re:^(std::option::)?Option::unwrap$')
 def _(I, ctx, o):
@@ -780,13 +797,21 @@ def _(I, ctx, a, b):
     x, y = a.get(), b.get(); a.set(y); b.set(x); return UNIT
 @model('re:^(std|core)::mem::drop$', 're:^(std|core)::mem::forget$')
 def _(I, ctx, v): return UNIT
+def _agg_minmax(I, ctx, a, b, want_max):
+    o = I.call(ctx, ctx.cur_crate, f'<{a.name} as Ord>::cmp', [ValRef(a), ValRef(b)])
+    if want_max: return a if o.variant == 'Greater' else b       # Ord::max returns the second argument when equal
+    return b if o.variant == 'Greater' else a
+
+
 @model('std::cmp::min', 'core::cmp::min', 're:^<usize as Ord>::min$', 're:^std::cmp::Ord::min$')
 def _(I, ctx, a, b):
+    if isinstance(a, Agg): return _agg_minmax(I, ctx, a, b, False)
     if a.conc() and b.conc(): return a if (a.sval() if a.signed else a.e) <= (b.sval() if b.signed else b.e) else b
     lt = (b.z() < a.z()) if a.signed else z3.ULT(b.z(), a.z())
     return b if ctx.branch(lt) else a
 @model('std::cmp::max', 'core::cmp::max', 're:^<usize as Ord>::max$', 're:^std::cmp::Ord::max$')
 def _(I, ctx, a, b):
+    if isinstance(a, Agg): return _agg_minmax(I, ctx, a, b, True)
     if a.conc() and b.conc(): return b if (b.sval() if b.signed else b.e) >= (a.sval() if a.signed else a.e) else a
     lt = (b.z() < a.z()) if a.signed else z3.ULT(b.z(), a.z())
     return a if ctx.branch(lt) else b
